@@ -574,6 +574,24 @@ def fam_eq(tier, seed, extra=()):
         ("make := (k: int) -> () -> int { f := () -> int { return k }; return f }; g := (x: any, y: any) -> bool { return x == y }; (g(make(1), make(1)), g(make, make))",
          (False, True)),
         ("a := { f := () -> int { return 1 }; f }; b := { f := () -> int { return 2 }; f }; r := match a { (b) => 1, => 2, }; (a == b, r)", (False, 2)),
+        # a bool literal on one side, a NON-bool run-time value of a wider static type on the other
+        ("f := (x: bool | int, kt: bool, kf: bool) -> any { return (x == true, x != false, true == x, x == kt, x != kf, x == false, x != true) }; (f(1, true, false), f(0, true, false), f(true, true, false))",
+         ((False, True, False, False, True, False, True), (False, True, False, False, True, False, True), (True, True, True, True, True, False, False))),
+        ("f := (x: any) -> any { return (x == true, x != false, x == 1, x == \"true\") }; (f(1), f(\"true\"), f(true), f(7))",
+         ((False, True, True, False), (False, True, False, True), (True, True, False, False), (False, True, False, False))),
+        ("f := (x: () | int | bool) -> any { return (x == (), x != (), x == 0, x == false) }; (f(()), f(0), f(false))",
+         ((True, False, False, False), (False, True, True, False), (False, True, False, True))),
+        # differences deep inside nested containers
+        ("[[[[[[[1]]]]]]] == [[[[[[[2]]]]]]]", False), ("[[[[[[[1]]]]]]] != [[[[[[[2]]]]]]]", True), ("[[[[[[[1]]]]]]] == [[[[[[[1]]]]]]]", True),
+        ("((((((((1, 2),),),),),),),) == ((((((((1, 3),),),),),),),)", False) if False else ("(1, (2, (3, (4, (5, (6, (7, (8, 9)))))))) == (1, (2, (3, (4, (5, (6, (7, (8, 0))))))))", False),
+        ("f := (x: any, y: any) -> bool { return x == y }; (f([[[[[[[1.5]]]]]]], [[[[[[[()]]]]]]]), f([[[[[[[1.5]]]]]]], [[[[[[[1.5]]]]]]]))", (False, True)),
+        ("a := struct{p := [struct{q := ([[1, 2]], 3)}]}; b := struct{p := [struct{q := ([[1, 5]], 3)}]}; (a == b, a != b, a == a)", (False, True, True)),
+        ("match [[[[[[[1]]]]]]] { ([[[[[[[2]]]]]]]) => 1, => 2, }", 2),
+        # NaN inside arrays however the array was produced; the same array value on both sides
+        ("n := 0.0 / 0.0; a := [1.5] + [n]; (a == a, a != a)", (False, True)),
+        ("n := 0.0 / 0.0; a := [1] + [n]; b := a; (a == b, [a] == [a], (a, 1) == (a, 1))", (False, False, False)),
+        ("f := (x: float) -> any { a := [1] + [x / x]; b := [x / x, 2][0:1]; c := [x / x]~ $]; return (a == a, b == b, c == c, a != a) }; f(0.0)", (False, False, False, True)),
+        ("f := (x: float) -> int { a := [1] + [x / x]; return match a { (a) => 1, => 2, } }; f(0.0)", 2),
         # value arms: every combination of a constant / run-time scrutinee with a constant / run-time arm value
         ("f := (p: int) -> int { return match 3 { (p) => 1, => 2, } }; (f(3), f(4))", (1, 2)),
         ("f := (p: int) -> int { return match p { (3) => 1, => 2, } }; (f(3), f(4))", (1, 2)),
@@ -812,6 +830,35 @@ def fam_order(tier, seed, extra=()):
     out.append(Case("order/field_access_drops_nothing", PRE + "r := struct{a := t(1), b := t(2)}.b; (r, *log)", (2, 12)))
     out.append(Case("order/if_same_branches", PRE + "r := if tb(1, true) 5 else 5; (r, *log)", (5, 1)))
     out.append(Case("order/match_single_arm", PRE + "r := match t(4) { => 5, }; (r, *log)", (5, 4)))
+    # comparing two container literals evaluates ALL elements of the left one, then all of the right one
+    for op, exp in (("==", False), ("!=", True)):
+        out.append(Case(f"order/tuple_literals/{op}", PRE + f"r := (t(1), t(2)) {op} (t(3), t(4)); (r, *log)", (exp, 1234)))
+        out.append(Case(f"order/tuple_literals/fn/{op}", PRE + f"f := () -> int {{ r := (t(1), t(2)) {op} (t(3), t(4)); return *log }}; f()", 1234))
+        out.append(Case(f"order/array_literals/{op}", PRE + f"r := [t(1), t(2)] {op} [t(3), t(4)]; (r, *log)", (exp, 1234)))
+        out.append(Case(f"order/struct_literals/{op}", PRE + f"r := struct{{a := t(1), b := t(2)}} {op} struct{{a := t(3), b := t(4)}}; (r, *log)", (exp, 1234)))
+        out.append(Case(f"order/nested_literals/{op}", PRE + f"r := (t(1), [t(2)]) {op} (t(1), [t(3)]); (r, *log)", (exp, 1213)))
+    out.append(Case("order/tuple_literals/equal_prefix", PRE + "r := (t(1), t(2), t(3)) == (t(1), t(5), t(3)); (r, *log)", (False, 123153)))
+    # an operand is evaluated exactly once whatever the constant on the other side is (no `x ** 2 -> x * x`)
+    k = 0
+    for op in ("+", "-", "*", "/", "%", "**", "<<", ">>", "&", "|", "^", "<", "<=", ">", ">=", "==", "!="):
+        for c in (0, 1, 2, 3):
+            for form in (f"t(5) {op} {c}", f"{c} {op} t(5)"):
+                try:
+                    exp = int_op(op, *( (5, c) if form.startswith("t(") else (c, 5) ))
+                except Exception:
+                    continue
+                expv = exp if isinstance(exp, Err) else (exp, 5)
+                out.append(Case(f"order/once/{k}", PRE + f"f := () -> any {{ r := {form}; return (r, *log) }}; f()",
+                                ErrOrEarly(exp.msg) if isinstance(exp, Err) else expv, what=form))
+                k += 1
+    # a discarded statement keeps its error: `{ a / b; 7 }` fails when b is 0
+    for j, (stmt, err) in enumerate([("a / b", E_ZDIV), ("a % b", E_ZMOD), ("a << (b + 64)", E_SHIFT), ("a >> (b - 1)", E_SHIFT),
+                                     ("a ** (b - 1)", E_NEGEXP), ("[a][b + 1]", E_INDEX), ("[a; b - 1]", E_NEGLEN),
+                                     ("(a / b, 1)", E_ZDIV), ("[a % b]", E_ZMOD), ("-(a / b)", E_ZDIV), ("a / b == 0", E_ZDIV)]):
+        out.append(Case(f"order/discarded_error/{j}", f"f := (a: int, b: int) -> int {{ if a == 7 {{ {stmt}; return 7 }} return 0 }}; f(7, 0)", Err(err)))
+        out.append(Case(f"order/discarded_error/block/{j}", f"f := (a: int, b: int) -> int {{ x := {{ {stmt}; 7 }}; return x }}; f(7, 0)", Err(err)))
+        out.append(Case(f"order/discarded_error/loop/{j}", f"f := (a: int, b: int) -> int {{ i := mut 0; while *i < 1 {{ i += 1; {stmt}; 0 }}; return 7 }}; f(7, 0)", Err(err)))
+        out.append(Case(f"order/discarded_error/ok/{j}", f"f := (a: int, b: int) -> int {{ if a == 7 {{ {stmt.replace('b', '(b + 1)') if False else stmt}; return 7 }} return 0 }}; f(0, 0)", 0))
     # assignment: target, then value
     out.append(Case("order/assign", PRE + "c := mut 0; pick := (k: int) -> mut int { log = *log * 10 + k; return c }; "
                     "r := (pick(1) = t(2)); (r, *c, *log)", (2, 2, 12)))
@@ -1024,6 +1071,16 @@ def fam_control(tier, seed, extra=()):
         "i := mut 0; loop { g := () -> int { break; return 1 }; i += 1; if *i > 2 { break } }",
     ]):
         c(f"reject/{k}", prog, Rejected())
+    for k, prog in enumerate([
+        "f := (c: bool, v: int | string) -> int { x := if c 1 else v; return match x { n: int => n, } }; f(false, \"s\")",
+        "f := (c: bool, v: int | string) -> int { x := if c v else 1; return match x { n: int => n, } }; f(true, \"s\")",
+        "f := (v: int | string | float) -> int { x := match v { i: int => 1, o: string | float | int => o, }; return match x { n: int => n, } }; f(\"s\")",
+        "f := (v: int | float) -> int { x := if n: int = v { n } else { v }; return match x { k: int => k, } }; f(1.5)",
+        "f := (c: bool, v: [int | string]) -> [int] { return if c [1] else v }; f(false, [\"s\"])",
+        "f := (c: bool, v: int | string) -> int { return if c 1 else v }; f(false, \"s\")",
+    ]):
+        c(f"reject/union_collapse/{k}", prog, Rejected())
+    c("accept/union_value_flows", "f := (c: bool, v: int | string) -> int | string { return if c 1 else v }; (f(true, \"s\"), f(false, \"s\"))", (1, "s"))
     c("accept/bare_return_in_void_fn", "n := mut 0; f := (b: bool) { if b { return } n += 1 }; f(true); f(false); *n", 1)
     c("accept/return_void_value", "f := (b: bool) -> () | int { if b { return } return 1 }; (f(true), f(false))", (None, 1))
     c("accept/loop_value_is_void", "x := loop { break }; y := { i := mut 0; while *i < 2 { i += 1 } }; (x, y)", (None, None))
@@ -1944,6 +2001,9 @@ FAMILIES = {
 def family(name, tier="quick", seed=0, extra=()):
     if name.startswith("arith:"):
         return fam_arith(name.split(":", 1)[1], tier, seed, extra)
+    if name == "peephole":
+        import probes_peephole
+        return probes_peephole.fam_peephole(tier, seed, extra)
     if name == "capture":
         import probes_capture
         return probes_capture.fam_capture(tier, seed, extra)
